@@ -131,8 +131,8 @@ ALL_KINDS = gen.KINDS + R.EXTRA_KINDS
 @st.composite
 def item_st(draw, tier="quick", functionals=None):
     functional = draw(st.sampled_from(functionals or (R.FCN_FUNCTIONALS + R.FCN_FUNCTIONALS + R.OP_FUNCTIONALS * 3 + R.MISC_FUNCTIONALS)))
-    method = draw(st.sampled_from(R.METHODS[functional]))
-    item = {"functional": functional, "method": method, "phase": draw(st.sampled_from([0, 1, 1, 2, 2])),
+    method = draw(st.sampled_from(R.METHODS[functional] + R.METHODS_C19_EXTRA.get(functional, [])))
+    item = {"functional": functional, "method": method, "phase": draw(st.sampled_from([0, 1, 1, 2, 2, 3, 3])),
             "seed": draw(st.integers(0, 2 ** 31 - 1))}
     if functional in R.FCN_FUNCTIONALS:
         item["spec"] = draw(gen.funspec_st(2, 2, kinds=ALL_KINDS, allow_unused=(functional != "mcquad")))
